@@ -26,13 +26,18 @@ CONSTANTS NP,        \* partitions 1..NP
           MaxClock,  \* the clock stops ticking here (model checking only)
           Multi,     \* TRUE: owner id of lifecycler l on partition p is (l-1)*NP+p, else l
           LCfg,      \* LCfg[l] = <<waitOwnersCount, waitOwnersDuration, deleteInactiveAfter>>
-          TokOf      \* TokOf[p] = set of token coordinates of partition p (immutable, disjoint)
+          TokOf,     \* TokOf[p] = set of token coordinates of partition p (immutable, disjoint)
+          ReqStates, \* target states callers ask for: subset of {"P", "A", "I", "D"}
+          Homes,     \* model checking only: Homes[l] = partitions lifecycler l may be started for
+          WaitModes, \* model checking only: lifecyclers that may start with CreatePartitionOnStartup = false
+          LockParts, \* model checking only: partitions the editor may lock
+          AgeCap     \* model checking only: ages above every configured delay are merged by `ageview`
 
 Part       == 1..NP
 Lifecycler == 1..NL
 Owner      == 1..NO
 PState     == {"P", "A", "I"}            \* Pending, Active, Inactive
-ReqState   == PState \cup {"D"}          \* states a caller may ask for ("D" = Deleted: never allowed)
+ReqState   == ReqStates                  \* states a caller may ask for ("D" = Deleted: never allowed)
 Edges      == {<<"P", "A">>, <<"P", "I">>, <<"A", "I">>, <<"I", "A">>}   \* allowedPartitionStateChanges
 
 VARIABLES parts,   \* parts[p]  = [st, ts, lk, lkTs]; st = "X": the partition does not exist
@@ -43,6 +48,18 @@ VARIABLES parts,   \* parts[p]  = [st, ts, lk, lkTs]; st = "X": the partition do
 
 vars == <<parts, owners, clock, lc, act>>
 view == <<[p \in Part |-> [st |-> parts[p].st, ts |-> parts[p].ts, lk |-> parts[p].lk]], owners, clock, lc>>
+
+(* Every guard and every property reads a timestamp only through "clock - ts > d"  *)
+(* with d one of the configured delays, and every write stamps `clock`: two states *)
+(* that agree on min(clock - ts, AgeCap) for every timestamp (AgeCap > all delays) *)
+(* are bisimilar, so the exhaustive configurations identify them and let the clock *)
+(* run without bound.                                                             *)
+AgeOf(ts) == IF clock - ts > AgeCap THEN AgeCap ELSE clock - ts
+ageview == <<[p \in Part |-> [st |-> parts[p].st, lk |-> parts[p].lk,
+                              age |-> IF parts[p].st = "X" THEN 0 ELSE AgeOf(parts[p].ts)]],
+             [o \in Owner |-> [part |-> owners[o].part,
+                               age |-> IF owners[o].st = "X" THEN 0 ELSE AgeOf(owners[o].ts)]],
+             lc>>
 
 AbsentP == [st |-> "X", ts |-> 0, lk |-> FALSE, lkTs |-> 0]
 AbsentO == [part |-> 0, ts |-> 0, st |-> "X"]
@@ -208,11 +225,12 @@ EditorRemoveOwner(o) ==
 LcCAS(l) == \/ StartCreate(l) \/ StartRegister(l) \/ ReconcileOwned(l) \/ ReconcileOthers(l)
             \/ StopRemove(l) \/ \E s \in ReqState : LcChangeState(l, s)
 EditorCAS == \/ \E p \in Part, s \in ReqState : EditorChangeState(p, s)
-             \/ \E p \in Part, b \in BOOLEAN : EditorSetLock(p, b)
+             \/ \E p \in LockParts, b \in BOOLEAN : EditorSetLock(p, b)
              \/ \E o \in Owner : EditorRemoveOwner(o)
 
 Next == \/ Tick
-        \/ \E l \in Lifecycler, p \in Part, create \in BOOLEAN : Begin(l, p, OwnerId(l, p), LCfg[l], create)
+        \/ \E l \in Lifecycler : \E p \in Homes[l], create \in (IF l \in WaitModes THEN BOOLEAN ELSE {TRUE}) :
+               Begin(l, p, OwnerId(l, p), LCfg[l], create)
         \/ \E l \in Lifecycler, remove \in BOOLEAN : Stop(l, remove)
         \/ \E l \in Lifecycler : WaitPoll(l)
         \/ \E l \in Lifecycler : LcCAS(l)
